@@ -9,6 +9,12 @@ out (`% 2^32`) at every arithmetic operation, `&` is `Nat.land`.
 * `Push`/`Pop`: with a single goroutine the `CompareAndSwapUint32` on `tail`/`head`
   always succeeds (the value loaded just before is still there); everything else is the
   code statement by statement; `r.values[pos&r.mask]` can panic (`none`).
+* `PushWait`/`PopWait`: the three regimes of `maxWait` as coded.  The spin loop
+  (`maxWait < 0`) runs on fuel and the ticker loop on the list of tick times
+  `now.Sub(begin)` the clock delivers (an input); running out of either is the explicit
+  result `blocks` (the call has not returned).  With one goroutine a failed `Push`/`Pop`
+  leaves the ring unchanged, so a negative wait on a full/empty ring never returns
+  (`Golib/Proof/C10Wait.lean`).
 * `warp k` is what the harness does through reflect+unsafe on a FRESH ring: head, tail
   and the slot sequence numbers are set to what `k` push/pop pairs produce
   (`c10_warp_eq_pairs`).
@@ -94,14 +100,83 @@ def SyncRing.pop (r : SyncRing) : Option (SyncRing × Int × Bool) :=
                      values := r.values.set idx { value := 0, pos := (seq + r.mask) % two32 } },
             holder.value, true)
 
+/-! ### PushWait / PopWait -/
+
+inductive WaitRes (α : Type) where
+  | done (a : α)       -- the call returned
+  | blocks             -- the call has not returned when fuel / delivered ticks ran out
+deriving Repr, DecidableEq
+
+/-- `for { if r.Push(value) { return true }; runtime.Gosched() }` -/
+def pushSpin (v : Int) : Nat → SyncRing → Option (WaitRes (SyncRing × Bool))
+  | 0, _ => some .blocks
+  | fuel + 1, r =>
+    match r.push v with
+    | none => none
+    | some (r1, true) => some (.done (r1, true))
+    | some (r1, false) => pushSpin v fuel r1
+
+/-- `for { now := <-ticker.C; if r.Push(value) { return true };
+          if now.Sub(begin) >= maxWait { return false } }`, one iteration per delivered tick. -/
+def pushTicks (v : Int) (maxWait : Int) : List Int → SyncRing → Option (WaitRes (SyncRing × Bool))
+  | [], _ => some .blocks
+  | now :: ts, r =>
+    match r.push v with
+    | none => none
+    | some (r1, true) => some (.done (r1, true))
+    | some (r1, false) =>
+      if now ≥ maxWait then some (.done (r1, false)) else pushTicks v maxWait ts r1
+
+def SyncRing.pushWait (r : SyncRing) (v : Int) (maxWait : Int) (ticks : List Int) (fuel : Nat) :
+    Option (WaitRes (SyncRing × Bool)) :=
+  if maxWait < 0 then pushSpin v fuel r else
+  match r.push v with
+  | none => none
+  | some (r1, true) => some (.done (r1, true))
+  | some (r1, false) =>
+    if maxWait = 0 then some (.done (r1, false)) else pushTicks v maxWait ticks r1
+
+def popSpin : Nat → SyncRing → Option (WaitRes (SyncRing × Int × Bool))
+  | 0, _ => some .blocks
+  | fuel + 1, r =>
+    match r.pop with
+    | none => none
+    | some (r1, x, true) => some (.done (r1, x, true))
+    | some (r1, _, false) => popSpin fuel r1
+
+def popTicks (maxWait : Int) : List Int → SyncRing → Option (WaitRes (SyncRing × Int × Bool))
+  | [], _ => some .blocks
+  | now :: ts, r =>
+    match r.pop with
+    | none => none
+    | some (r1, x, true) => some (.done (r1, x, true))
+    | some (r1, _, false) =>
+      if now ≥ maxWait then some (.done (r1, 0, false)) else popTicks maxWait ts r1
+
+def SyncRing.popWait (r : SyncRing) (maxWait : Int) (ticks : List Int) (fuel : Nat) :
+    Option (WaitRes (SyncRing × Int × Bool)) :=
+  if maxWait < 0 then popSpin fuel r else
+  match r.pop with
+  | none => none
+  | some (r1, x, true) => some (.done (r1, x, true))
+  | some (r1, _, false) =>
+    if maxWait = 0 then some (.done (r1, 0, false)) else popTicks maxWait ticks r1
+
+/-- The ticks a 10 ms ticker delivers until `maxWait` (in ms) has elapsed: 10, 20, …  (the
+result of a wait does not depend on the tick times as long as one reaches `maxWait`:
+`pushWait_nonneg`). -/
+def nominalTicks (maxWait : Nat) : List Int :=
+  (List.range (maxWait / 10 + 1)).map fun i => ((i + 1) * 10 : Nat)
+
+/-- slots `i, i+1, …` hold `pos = i, i+1, …` and the zero value (one linear pass) -/
+def freshFrom : Nat → List Slot → Bool
+  | _, [] => true
+  | i, s :: ss => s.pos == i % two32 && s.value == 0 && freshFrom (i + 1) ss
+
 /-- A ring as `Init` leaves it (also what it looks like again after a multiple of 2^32
 operations on an empty ring). -/
 def SyncRing.isFresh (r : SyncRing) : Bool :=
-  r.head == 0 && r.tail == 0 &&
-  (List.range r.values.length).all fun i =>
-    match r.values[i]? with
-    | some s => s.pos == i % two32 && s.value == 0
-    | none => false
+  r.head == 0 && r.tail == 0 && freshFrom 0 r.values
 
 /-- Window position of slot `i`: the unique `p` with `H ≤ p < H + c`, `p ≡ i (mod c)`. -/
 def winPos (H c i : Nat) : Nat :=
@@ -117,6 +192,8 @@ def SyncRing.warp (r : SyncRing) (k : Nat) : SyncRing :=
 
 inductive SOp where
   | push (v : Int) | pop | len | cap | isEmpty | isFull
+  | pushW (v : Int) (maxWait : Nat)     -- `PushWait(v, maxWait)`, `maxWait ≥ 0` (ms)
+  | popW (maxWait : Nat)                -- `PopWait(maxWait)`, `maxWait ≥ 0`
 deriving Repr, DecidableEq
 
 def parseSOp (ts : List String) : Option SOp :=
@@ -127,7 +204,22 @@ def parseSOp (ts : List String) : Option SOp :=
   | ["cap"] => some .cap
   | ["isempty"] => some .isEmpty
   | ["isfull"] => some .isFull
+  | ["pushw", v, w] =>
+    match v.toInt?, w.toNat? with
+    | some v, some w => some (.pushW v w)
+    | _, _ => none
+  | ["popw", w] => w.toNat?.map SOp.popW
   | _ => none
+
+/-- Printed result of a wait; a call that does not return is `would-block` (the harness
+does not make such a call). -/
+def showPushWait : WaitRes (SyncRing × Bool) → SyncRing → SyncRing × String
+  | .done (r', ok), _ => (r', showBool ok)
+  | .blocks, r => (r, "would-block")
+
+def showPopWait : WaitRes (SyncRing × Int × Bool) → SyncRing → SyncRing × String
+  | .done (r', v, ok), _ => (r', s!"{v} {showBool ok}")
+  | .blocks, r => (r, "would-block")
 
 def SyncRing.step (r : SyncRing) : SOp → Option (SyncRing × String)
   | .push v => (r.push v).map fun (r', ok) => (r', showBool ok)
@@ -136,6 +228,8 @@ def SyncRing.step (r : SyncRing) : SOp → Option (SyncRing × String)
   | .cap => some (r, toString (r.cap : Int))
   | .isEmpty => some (r, showBool r.isEmpty)
   | .isFull => some (r, showBool r.isFull)
+  | .pushW v w => (r.pushWait v w (nominalTicks w) 0).map fun res => showPushWait res r
+  | .popW w => (r.popWait w (nominalTicks w) 0).map fun res => showPopWait res r
 
 def SyncRing.run (r : SyncRing) : List SOp → Option (SyncRing × List String)
   | [] => some (r, [])
@@ -162,6 +256,17 @@ def runSyncOps : Option SyncRing → List String → List String
         if r.isFresh then "ok" :: runSyncOps (some (r.warp k)) ls
         else "not-fresh" :: runSyncOps (some r) ls
     | ["dump"] => r.dump :: runSyncOps (some r) ls
+    | ["pushwn", v] =>                           -- `PushWait(v, -1)`: spins until pushed
+      match v.toInt? with
+      | none => "bad-op" :: runSyncOps (some r) ls
+      | some v =>
+        match r.pushWait v (-1) [] 3 with
+        | none => "panic" :: runSyncOps none ls
+        | some res => (showPushWait res r).2 :: runSyncOps (some (showPushWait res r).1) ls
+    | ["popwn"] =>                               -- `PopWait(-1)`: spins until popped
+      match r.popWait (-1) [] 3 with
+      | none => "panic" :: runSyncOps none ls
+      | some res => (showPopWait res r).2 :: runSyncOps (some (showPopWait res r).1) ls
     | ts =>
       match parseSOp ts with
       | none => "bad-op" :: runSyncOps (some r) ls
@@ -183,6 +288,30 @@ def runSyncCase (hdr : List String) (ops : List String) : List String :=
       match SyncRing.init? c with
       | none => "panic" :: runSyncOps none ops
       | some r => "ok" :: runSyncOps (some r) ops
+  | _ => "bad-op" :: ops.map fun _ => "bad-op"
+
+/-- Case kind `synccap`: every line is an independent call.  `cap n` = `NewSync(n).Cap()`
+(`syncCap`, the value `Init` stores; `c10_cap_rounding`) — requests in (2^28, 2^31] are not
+executed by the harness (`skip`); `rup x` = the private `roundupPowOfTwo(uint32 x)`. -/
+def capStep (ts : List String) : String :=
+  match ts with
+  | ["cap", n] =>
+    match n.toInt? with
+    | none => "bad-op"
+    | some n =>
+      if 268435456 < n ∧ n ≤ 2147483648 then "skip" else
+      match syncCap n with
+      | none => "panic"
+      | some c => toString c
+  | ["rup", x] =>
+    match x.toNat? with
+    | none => "bad-op"
+    | some x => if x < two32 then toString (roundupPowOfTwo x) else "bad-op"
+  | _ => "bad-op"
+
+def runCapCase (hdr : List String) (ops : List String) : List String :=
+  match hdr with
+  | [] => "ok" :: ops.map fun l => capStep (toks l)
   | _ => "bad-op" :: ops.map fun _ => "bad-op"
 
 end Golib.C10
